@@ -78,6 +78,20 @@ pub fn pre_lists(thorough: bool, seed: usize) -> Vec<(Vec<Vec<u8>>, Vec<u8>)> {
             v.push((vec![p, short.to_vec()], b"et a.x".to_vec()));
         }
     }
+    // packed prefilter with long patterns (confirmation compares beyond the fingerprint): 4..7
+    // patterns with distinct first bytes and lengths 13..40; the haystacks get near misses planted
+    for k in 0..(if thorough { 60 } else { 14 }) {
+        let firsts: &[u8] = b"QZ#qz@E";
+        let n = 4 + rng.below(4);
+        let mut l = vec![];
+        for i in 0..n {
+            let len = [13usize, 16, 17, 21, 22, 24, 29, 32, 40][(k + i) % 9];
+            let mut p = vec![firsts[i]];
+            p.extend(rng.bytes(b"aet-", len - 1));
+            l.push(p);
+        }
+        v.push((l, b"aet-x".to_vec()));
+    }
     // a pattern whose first rare byte sits at offset 254..300 (offsets are stored in a u8)
     for k in [254usize, 255, 256, 257, 300] {
         let mut p = vec![b'a'; k];
@@ -164,6 +178,20 @@ pub fn run(args: &Args) -> Report {
                     h[at..at + p.len()].copy_from_slice(p);
                 }
             }
+            longs.push(h);
+        }
+        // near misses: a pattern with exactly one byte changed, at every position of patterns of
+        // 8..48 bytes (a confirmation step that skips a byte reports a match that is none)
+        for p in pats.iter().filter(|p| p.len() >= 8 && p.len() <= 48) {
+            let mut h = vec![b'x'; 30];
+            for j in 0..p.len() {
+                let mut q = p.clone();
+                q[j] = if q[j] == b'_' { b'-' } else { b'_' };
+                h.extend_from_slice(&q);
+                h.extend_from_slice(b"xx");
+            }
+            h.extend_from_slice(p);
+            h.extend_from_slice(&[b'x'; 30]);
             longs.push(h);
         }
         for kind in [Kind::Std, Kind::LF, Kind::LL] {
